@@ -1,2 +1,803 @@
-From Coq Require Import List ZArith Bool.
-From Verif Require Import Lib.UrlTree C13.Model.
+(* C13 — proofs.  The tree built from a list of declarations is characterised
+   by an invariant [Inv] that speaks about the declarations only (which nodes
+   exist, their kind and parameter name, and which merged method->policy map
+   each declared node points to); soundness, specificity and order
+   independence of the selection follow from it and from the lemmas of
+   Lib/UrlTreeProofs about Lookup. *)
+From Coq Require Import List ZArith NArith Bool Lia Permutation.
+From Verif Require Import Lib.UrlTree Lib.UrlTreeProofs C13.Model.
+Import ListNotations.
+Open Scope Z_scope.
+
+(* ------------------------------------------------------------------ *)
+(* maps and store *)
+
+Lemma mm_find_set : forall m m' p mm,
+  mm_find m (mm_set m' p mm) = if str_eqb m m' then Some p else mm_find m mm.
+Proof.
+  intros m m' p. induction mm as [|[m0 p0] mm IH]; cbn.
+  - destruct (str_eqb m m'); reflexivity.
+  - destruct (str_eqb m' m0) eqn:E0.
+    + apply str_eqb_eq in E0. subst m0. cbn.
+      destruct (str_eqb m m'); reflexivity.
+    + cbn. destruct (str_eqb m m0) eqn:E1.
+      * apply str_eqb_eq in E1. subst m0.
+        destruct (str_eqb m m') eqn:E2; [|reflexivity].
+        apply str_eqb_eq in E2. subst m'. rewrite str_eqb_refl in E0. discriminate.
+      * exact IH.
+Qed.
+
+(* ------------------------------------------------------------------ *)
+(* what the map of a node must contain: the declarations of that node and
+   method, merged in declaration order *)
+
+Definition at_node (X : key) (m : str) (d : decl) : bool :=
+  key_eqb (dkey d) X && str_eqb (d_method d) m.
+
+Definition merge_step (acc : option policy) (d : decl) : option policy :=
+  match acc with
+  | None => Some (policy_of d)
+  | Some prev =>
+      Some {| p_url := p_url prev; p_rem := p_rem prev ++ d_rem d;
+              p_diag := p_diag prev ++ d_diag d |}
+  end.
+
+Definition merged (ds : list decl) (X : key) (m : str) : option policy :=
+  fold_left merge_step (filter (at_node X m) ds) None.
+
+Definition acc_rem (a : option policy) : list remedy :=
+  match a with Some p => p_rem p | None => [] end.
+Definition acc_diag (a : option policy) : list diagnosis :=
+  match a with Some p => p_diag p | None => [] end.
+
+Lemma fold_merge_rem : forall l a,
+  acc_rem (fold_left merge_step l a) = acc_rem a ++ flat_map d_rem l.
+Proof.
+  induction l as [|d l IH]; intro a; cbn [fold_left flat_map].
+  - rewrite app_nil_r. reflexivity.
+  - rewrite IH. destruct a as [p|]; cbn.
+    + rewrite <- app_assoc. reflexivity.
+    + reflexivity.
+Qed.
+
+Lemma fold_merge_diag : forall l a,
+  acc_diag (fold_left merge_step l a) = acc_diag a ++ flat_map d_diag l.
+Proof.
+  induction l as [|d l IH]; intro a; cbn [fold_left flat_map].
+  - rewrite app_nil_r. reflexivity.
+  - rewrite IH. destruct a as [p|]; cbn.
+    + rewrite <- app_assoc. reflexivity.
+    + reflexivity.
+Qed.
+
+Lemma fold_merge_some : forall l a, a <> None -> fold_left merge_step l a <> None.
+Proof.
+  induction l as [|d l IH]; intros a H; cbn; [exact H|].
+  apply IH. destruct a; discriminate.
+Qed.
+
+Lemma fold_merge_none : forall l, fold_left merge_step l None = None -> l = [].
+Proof.
+  intros [|d l] H; [reflexivity|]. cbn in H.
+  exfalso. revert H. apply fold_merge_some. discriminate.
+Qed.
+
+Lemma merged_rem : forall ds X m pol,
+  merged ds X m = Some pol -> p_rem pol = flat_map d_rem (filter (at_node X m) ds).
+Proof.
+  intros ds X m pol H. unfold merged in H.
+  pose proof (fold_merge_rem (filter (at_node X m) ds) None) as R.
+  rewrite H in R. exact R.
+Qed.
+
+Lemma merged_diag : forall ds X m pol,
+  merged ds X m = Some pol -> p_diag pol = flat_map d_diag (filter (at_node X m) ds).
+Proof.
+  intros ds X m pol H. unfold merged in H.
+  pose proof (fold_merge_diag (filter (at_node X m) ds) None) as R.
+  rewrite H in R. exact R.
+Qed.
+
+Lemma merged_snoc : forall ds d X m,
+  merged (ds ++ [d]) X m =
+  if at_node X m d then merge_step (merged ds X m) d else merged ds X m.
+Proof.
+  intros. unfold merged. rewrite filter_app. cbn [filter].
+  destruct (at_node X m d).
+  - rewrite fold_left_app. reflexivity.
+  - rewrite app_nil_r. reflexivity.
+Qed.
+
+Lemma merged_no_decl : forall ds X m,
+  (forall d, In d ds -> dkey d <> X) -> merged ds X m = None.
+Proof.
+  intros ds X m H. unfold merged.
+  replace (filter (at_node X m) ds) with (@nil decl); [reflexivity|].
+  symmetry. induction ds as [|d ds IH]; [reflexivity|]. cbn.
+  unfold at_node at 1.
+  destruct (key_eqb (dkey d) X) eqn:E.
+  - apply key_eqb_eq in E. exfalso. apply (H d); [left; reflexivity|exact E].
+  - cbn. apply IH. intros d' Hd'. apply H. right. exact Hd'.
+Qed.
+
+(* ------------------------------------------------------------------ *)
+(* kind consistency *)
+
+Definition kind_consistent (ds : list decl) : Prop :=
+  forall d1 d2, In d1 ds -> In d2 ds -> kind_agree (pat d1) (pat d2) = true.
+
+Lemma kind_consistentb_spec : forall ds,
+  kind_consistentb ds = true <-> kind_consistent ds.
+Proof.
+  intro ds. unfold kind_consistentb, kind_consistent. split.
+  - intros H d1 d2 H1 H2. rewrite forallb_forall in H.
+    specialize (H d1 H1). rewrite forallb_forall in H. apply H. exact H2.
+  - intro H. apply forallb_forall. intros d1 H1. apply forallb_forall.
+    intros d2 H2. apply H; assumption.
+Qed.
+
+Lemma kind_consistent_perm : forall ds ds',
+  Permutation ds ds' -> kind_consistent ds -> kind_consistent ds'.
+Proof.
+  intros ds ds' HP H d1 d2 H1 H2.
+  apply H; eapply Permutation_in; try eassumption; apply Permutation_sym; exact HP.
+Qed.
+
+Lemma kind_consistent_app_l : forall ds1 ds2,
+  kind_consistent (ds1 ++ ds2) -> kind_consistent ds1.
+Proof.
+  intros ds1 ds2 H d1 d2 H1 H2. apply H; apply in_or_app; left; assumption.
+Qed.
+
+(* ------------------------------------------------------------------ *)
+(* the invariant *)
+
+Definition visited (d : decl) (X : key) (k : bool) (ps : pstep) : Prop :=
+  step_at [] (pat d) X = Some (k, ps).
+
+Record Inv (ds : list decl) (pt : ptree) : Prop := {
+  inv_A : forall X ni, find_node X (pt_tree pt) = Some ni ->
+          exists d k ps, In d ds /\ visited d X k ps;
+  inv_B : forall d, In d ds -> agrees (pt_tree pt) [] (pat d);
+  inv_C : forall X,
+          match node_val (pt_tree pt) X with
+          | Some id =>
+              (exists d, In d ds /\ dkey d = X) /\ (id < pt_next pt)%N /\
+              forall m, mm_find m (st_get id (pt_store pt)) = merged ds X m
+          | None => forall d, In d ds -> dkey d <> X
+          end;
+  inv_D : forall X X' id, node_val (pt_tree pt) X = Some id ->
+          node_val (pt_tree pt) X' = Some id -> X = X';
+  inv_V : forall d, In d ds -> validate (split_url (d_url d)) = true
+}.
+
+Lemma Inv_empty : Inv [] empty_ptree.
+Proof.
+  constructor; cbn; intros; try contradiction; try discriminate.
+Qed.
+
+(* ------------------------------------------------------------------ *)
+(* one declaration *)
+
+Lemma skey_const_inv : forall ps c, skey_of ps = KConst c -> ps = PConst c.
+Proof. intros [c'|nm|] c H; cbn in H; try discriminate. congruence. Qed.
+
+Lemma skey_wild_inv : forall ps, skey_of ps = KWild -> ps = PWild.
+Proof. intros [c'|nm|] H; cbn in H; try discriminate. reflexivity. Qed.
+
+Lemma step_common : forall ds pt d id mm' next' t',
+  Inv ds pt -> kind_consistent (ds ++ [d]) ->
+  insert_parts (pt_tree pt) (split_url (d_url d)) id = Some t' ->
+  (pt_next pt <= next')%N -> (id < next')%N ->
+  (forall X, node_val (pt_tree pt) X = Some id -> X = dkey d) ->
+  (forall m, mm_find m mm' = merged (ds ++ [d]) (dkey d) m) ->
+  Inv (ds ++ [d])
+      {| pt_tree := t'; pt_store := (id, mm') :: pt_store pt; pt_next := next' |}.
+Proof.
+  intros ds pt d id mm' next' t' HI HK HIns Hnext Hid Huniq Hmm.
+  set (t := pt_tree pt) in *.
+  pose proof (insert_parts_cases t _ id t' HIns (split_url_nonempty (d_url d)))
+    as [HV HC].
+  fold (pat d) in HC. fold (dkey d) in HC.
+  set (K' := dkey d) in *.
+  assert (Hd_in : In d (ds ++ [d])) by (apply in_or_app; right; left; reflexivity).
+  assert (Hin_l : forall d0, In d0 ds -> In d0 (ds ++ [d]))
+    by (intros; apply in_or_app; left; assumption).
+  (* the kinds of the nodes the new declaration passes through *)
+  assert (Hold : forall X k ps ni,
+             step_at [] (pat d) X = Some (k, ps) -> find_node X t = Some ni ->
+             n_host ni = k /\ (forall c, ps = PConst c -> n_pname ni = [])).
+  { intros X k ps ni HS HF.
+    destruct (inv_A _ _ HI X ni HF) as (d1 & k1 & ps1 & Hd1 & Hv1).
+    destruct (inv_B _ _ HI d1 Hd1 X k1 ps1 Hv1) as (ni1 & F1 & Hh1 & Hn1).
+    fold t in F1. rewrite HF in F1. inversion F1; subst ni1.
+    split.
+    - rewrite Hh1.
+      eapply (kind_agree_visits (pat d1) (pat d)); eauto.
+    - intros c ->. rewrite Hn1.
+      destruct (step_at_head _ _ _ _ _ Hv1) as [Ka Ea].
+      destruct (step_at_head _ _ _ _ _ HS) as [Kb Eb].
+      rewrite Ea in Eb. injection Eb as Hs _. cbn in Hs.
+      apply skey_const_inv in Hs. subst ps1. reflexivity. }
+  assert (NV1 : node_val t' K' = Some id).
+  { destruct (HC K') as [(_ & Hx & _)|(k & ps & ni' & _ & F & Hv & _)].
+    - contradiction.
+    - unfold node_val. rewrite F, Hv, key_eqb_refl. reflexivity. }
+  assert (NV2 : forall X, X <> K' -> node_val t' X = node_val t X).
+  { intros X HX.
+    destruct (HC X) as [(_ & _ & F)|(k & ps & ni' & _ & F & Hv & _)].
+    - unfold node_val. rewrite F. reflexivity.
+    - unfold node_val at 1. rewrite F, Hv.
+      apply key_eqb_neq in HX. rewrite HX. reflexivity. }
+  constructor; cbn [pt_tree pt_store pt_next].
+  - (* inv_A *)
+    intros X ni' F.
+    destruct (HC X) as [(_ & _ & F')|(k & ps & ni2 & HS & _)].
+    + rewrite F' in F. destruct (inv_A _ _ HI X ni' F) as (d1 & k1 & ps1 & Hd1 & Hv1).
+      exists d1, k1, ps1. auto.
+    + exists d, k, ps. auto.
+  - (* inv_B *)
+    intros d0 Hd0 X k0 ps0 HS0.
+    apply in_app_or in Hd0. destruct Hd0 as [Hd0|[<-|[]]].
+    + destruct (inv_B _ _ HI d0 Hd0 X k0 ps0 HS0) as (ni0 & F0 & Hh0 & Hn0).
+      fold t in F0.
+      destruct (HC X) as [(_ & _ & F')|(k & ps & ni' & HS & F & _ & Hcase)].
+      * exists ni0. rewrite F'. auto.
+      * exists ni'. split; [exact F|].
+        destruct Hcase as [(-> & _ & Hh & Hn)|[(_ & ni & Fo & Hh & Hn & _)|(_ & Fn & _)]].
+        -- split.
+           ++ rewrite Hh. symmetry.
+              eapply (kind_agree_visits (pat d0) (pat d)); eauto.
+           ++ rewrite Hn.
+              destruct (step_at_head _ _ _ _ _ HS0) as [Ka Ea].
+              destruct (step_at_head _ _ _ _ _ HS) as [Kb Eb].
+              rewrite Ea in Eb. injection Eb as Hs _. cbn in Hs.
+              apply skey_wild_inv in Hs. subst ps0. reflexivity.
+        -- rewrite Fo in F0. inversion F0; subst ni0. split; congruence.
+        -- rewrite Fn in F0. discriminate.
+    + destruct (HC X) as [(HN & _)|(k & ps & ni' & HS & F & _ & Hcase)].
+      * unfold visited in *. rewrite HS0 in HN. discriminate.
+      * rewrite HS0 in HS. inversion HS; subst k ps. clear HS.
+        exists ni'. split; [exact F|].
+        destruct Hcase as [(-> & _ & Hh & Hn)|[(HNW & ni & Fo & Hh & Hn & Hp)|(_ & _ & Hh & Hn)]].
+        -- split; [exact Hh|exact Hn].
+        -- destruct (Hold X k0 ps0 ni HS0 Fo) as [Hk Hc].
+           split; [congruence|]. rewrite Hn.
+           destruct ps0 as [c|nm|]; cbn [pname_of].
+           ++ apply (Hc c). reflexivity.
+           ++ apply Hp. reflexivity.
+           ++ contradiction.
+        -- split; assumption.
+  - (* inv_C *)
+    intro X. destruct (key_eq_dec X K') as [->|HX].
+    + rewrite NV1. split; [exists d; split; [exact Hd_in|reflexivity]|].
+      split; [exact Hid|]. intro m. cbn [st_get]. rewrite N.eqb_refl. apply Hmm.
+    + rewrite (NV2 X HX). pose proof (inv_C _ _ HI X) as HCx. fold t in HCx.
+      destruct (node_val t X) as [id0|] eqn:NVX.
+      * destruct HCx as ((d0 & Hd0 & Hk0) & Hlt & Hst).
+        split; [exists d0; auto|]. split; [lia|].
+        intro m. cbn [st_get].
+        destruct (N.eqb id0 id) eqn:E.
+        -- apply N.eqb_eq in E. subst id0. exfalso. apply HX. apply Huniq. exact NVX.
+        -- rewrite Hst. rewrite merged_snoc. unfold at_node.
+           assert (E2 : key_eqb (dkey d) X = false)
+             by (apply key_eqb_neq; intro; apply HX; symmetry; assumption).
+           rewrite E2. reflexivity.
+      * intros d0 Hd0. apply in_app_or in Hd0. destruct Hd0 as [Hd0|[<-|[]]].
+        -- apply HCx. exact Hd0.
+        -- intro E. apply HX. symmetry. exact E.
+  - (* inv_D *)
+    intros X X' i H1 H2.
+    destruct (key_eq_dec X K') as [->|HX]; destruct (key_eq_dec X' K') as [->|HX'].
+    + reflexivity.
+    + rewrite NV1 in H1. inversion H1; subst i. rewrite (NV2 X' HX') in H2.
+      exfalso. apply HX'. apply Huniq. exact H2.
+    + rewrite NV1 in H2. inversion H2; subst i. rewrite (NV2 X HX) in H1.
+      exfalso. apply HX. apply Huniq. exact H1.
+    + rewrite (NV2 X HX) in H1. rewrite (NV2 X' HX') in H2.
+      eapply (inv_D _ _ HI); eauto.
+  - (* inv_V *)
+    intros d0 Hd0. apply in_app_or in Hd0. destruct Hd0 as [Hd0|[<-|[]]].
+    + apply (inv_V _ _ HI). exact Hd0.
+    + exact HV.
+Qed.
+
+Lemma build_step_inv : forall ds pt d pt',
+  Inv ds pt -> kind_consistent (ds ++ [d]) ->
+  build_step pt d = Some pt' -> Inv (ds ++ [d]) pt'.
+Proof.
+  intros ds pt d pt' HI HK HB. unfold build_step in HB.
+  destruct (conflict _ _); [discriminate|].
+  unfold get_exact_parts in HB. fold (pat d) in HB. fold (dkey d) in HB.
+  pose proof (inv_C _ _ HI (dkey d)) as HCd.
+  destruct (node_val (pt_tree pt) (dkey d)) as [id|] eqn:NV.
+  - destruct HCd as (_ & Hlt & Hst).
+    destruct (insert_parts (pt_tree pt) (split_url (d_url d)) id) as [t'|] eqn:HIns;
+      [|discriminate].
+    inversion HB; subst pt'. clear HB.
+    eapply step_common; eauto.
+    + lia.
+    + intros X HX. eapply (inv_D _ _ HI); eauto.
+    + intro m. rewrite mm_find_set, merged_snoc. unfold at_node.
+      rewrite key_eqb_refl. cbn [andb].
+      destruct (str_eqb m (d_method d)) eqn:E.
+      * apply str_eqb_eq in E. subst m. rewrite str_eqb_refl.
+        unfold merged_policy, merge_step. rewrite Hst.
+        destruct (merged ds (dkey d) (d_method d)); reflexivity.
+      * assert (E' : str_eqb (d_method d) m = false).
+        { apply str_eqb_neq. apply str_eqb_neq in E. congruence. }
+        rewrite E'. apply Hst.
+  - destruct (insert_parts (pt_tree pt) (split_url (d_url d)) (pt_next pt)) as [t'|] eqn:HIns;
+      [|discriminate].
+    inversion HB; subst pt'. clear HB.
+    eapply step_common; eauto.
+    + lia.
+    + lia.
+    + intros X HX. exfalso.
+      pose proof (inv_C _ _ HI X) as HCx. rewrite HX in HCx.
+      destruct HCx as (_ & Hlt & _). lia.
+    + intro m. rewrite merged_snoc. unfold at_node. rewrite key_eqb_refl. cbn [andb].
+      rewrite (merged_no_decl ds (dkey d) m HCd). cbn [mm_find merge_step].
+      destruct (str_eqb m (d_method d)) eqn:E.
+      * apply str_eqb_eq in E. subst m. rewrite str_eqb_refl. reflexivity.
+      * assert (E' : str_eqb (d_method d) m = false).
+        { apply str_eqb_neq. apply str_eqb_neq in E. congruence. }
+        rewrite E'. reflexivity.
+Qed.
+
+Lemma build_from_inv : forall ds2 ds1 pt pt',
+  Inv ds1 pt -> kind_consistent (ds1 ++ ds2) ->
+  build_from pt ds2 = Some pt' -> Inv (ds1 ++ ds2) pt'.
+Proof.
+  induction ds2 as [|d ds2 IH]; intros ds1 pt pt' HI HK HB; cbn in HB.
+  - inversion HB; subst. rewrite app_nil_r. exact HI.
+  - destruct (build_step pt d) as [pt1|] eqn:HS; [|discriminate].
+    replace (ds1 ++ d :: ds2) with ((ds1 ++ [d]) ++ ds2) in *
+      by (rewrite <- app_assoc; reflexivity).
+    eapply IH; [|exact HK|exact HB].
+    eapply build_step_inv; eauto.
+    eapply kind_consistent_app_l. exact HK.
+Qed.
+
+Lemma build_inv : forall ds pt,
+  build ds = Some pt -> kind_consistent ds -> Inv ds pt.
+Proof.
+  intros ds pt HB HK.
+  apply (build_from_inv ds [] empty_ptree pt Inv_empty HK HB).
+Qed.
+
+(* ------------------------------------------------------------------ *)
+(* the node a lookup selects *)
+
+Lemma lookup_val_match : forall pt url id,
+  l_val (plookup pt url) = Some id -> l_match (plookup pt url) = true.
+Proof.
+  intros pt url id H. unfold plookup, lookup, lookup_parts in *.
+  destruct (l_match (walk (pt_tree pt) [] (split_url url) None [] [])) eqn:E;
+    [reflexivity|].
+  rewrite (walk_no_match _ _ _ _ _ _ E) in H. discriminate.
+Qed.
+
+Lemma has_value_iff : forall ds pt X,
+  Inv ds pt ->
+  (node_val (pt_tree pt) X = None <-> forall d, In d ds -> dkey d <> X).
+Proof.
+  intros ds pt X HI. pose proof (inv_C _ _ HI X) as H.
+  destruct (node_val (pt_tree pt) X) as [id|].
+  - destruct H as ((d & Hd & Hk) & _). split; [discriminate|].
+    intro Hn. exfalso. apply (Hn d Hd Hk).
+  - split; auto.
+Qed.
+
+(* every declaration of the selected node matches the request, spells the
+   normalised URL and determines the path parameters *)
+Lemma selected_node : forall ds pt url d,
+  Inv ds pt ->
+  l_match (plookup pt url) = true ->
+  In d ds -> dkey d = l_key (plookup pt url) ->
+  matches (pat d) (split_url url) = true /\
+  l_norm (plookup pt url) = render_pattern (pat d) /\
+  (Forall (fun u => is_brace (snd u) = false) (split_url url) ->
+   l_params (plookup pt url) = params_at (pat d) (split_url url) []).
+Proof.
+  intros ds pt url d HI HM Hd Hk.
+  unfold plookup, lookup in *. set (parts := split_url url) in *.
+  set (t := pt_tree pt) in *.
+  pose proof (lookup_parts_spec t parts HM) as (HV & HN & HR).
+  set (r := lookup_parts t parts) in *.
+  pose proof (inv_B _ _ HI d Hd) as HA. fold t in HA.
+  assert (Hnorm : l_norm r = render_pattern (pat d)).
+  { rewrite HN, <- Hk. unfold dkey, key_of. rewrite (path_of_render _ _ _ HA).
+    reflexivity. }
+  destruct HR as [(HF & _ & HP)|(P & rP & pre & HW & HF & Hrall & _ & HP)].
+  - rewrite <- Hk in HF, HP. unfold dkey, key_of in HF, HP.
+    assert (HL : length parts = length (pat d)).
+    { apply follows_length in HF. rewrite key_from_length, rev_length in HF. cbn [length] in HF. lia. }
+    split; [|split; [exact Hnorm|]].
+    + pose proof (follows_matches (pat d) t [] [] parts [] [] HA HL) as H.
+      rewrite !app_nil_r in H. apply H; auto.
+    + intro HB. rewrite HP.
+      pose proof (params_along_at (pat d) t [] [] parts HA HL) as H.
+      rewrite app_nil_r in H. apply H; auto.
+      eapply (follows_wild_free (pat d) t [] [] parts HL).
+      rewrite app_nil_r. exact HF.
+  - rewrite <- Hk in HW. unfold dkey in HW.
+    destruct (key_of_wild_inv _ _ HW) as (p0 & k & Hp & HP0).
+    assert (Hparts : parts = rev rP ++ rev pre).
+    { rewrite <- (rev_involutive parts), Hrall, rev_app_distr. reflexivity. }
+    rewrite Hp in HA. pose proof (agrees_app_l _ _ _ _ HA) as HA0.
+    rewrite <- HP0 in HF, HP. unfold key_of in HF, HP.
+    assert (HL : length (rev rP) = length p0).
+    { apply follows_length in HF. rewrite key_from_length in HF.
+      rewrite rev_length. cbn [length] in HF. lia. }
+    assert (HF' : follows t (key_from [] p0) (rev (rev rP) ++ [])).
+    { rewrite rev_involutive, app_nil_r. exact HF. }
+    split; [|split; [exact Hnorm|]].
+    + rewrite Hp, Hparts.
+      apply (follows_matches p0 t [] [] (rev rP) [(k, PWild)] (rev pre) HA0 HL HF').
+      right. exists k. reflexivity.
+    + intro HB. rewrite HP, Hp, Hparts.
+      rewrite (params_at_app_wild p0 (rev rP) k (rev pre) [] HL).
+      pose proof (params_along_at p0 t [] [] (rev rP) HA0 HL) as H.
+      rewrite rev_involutive, app_nil_r in H. apply H.
+      * eapply (follows_wild_free p0 t [] [] (rev rP) HL). exact HF'.
+      * rewrite Hparts in HB. apply Forall_app in HB. apply HB.
+Qed.
+
+(* the policy entry the dispatcher reads is the merge of the declarations of
+   the selected node and the request's method *)
+Lemma policy_for_merged : forall ds pt m url,
+  Inv ds pt ->
+  policy_for pt m url =
+  if l_match (plookup pt url) then merged ds (l_key (plookup pt url)) m else None.
+Proof.
+  intros ds pt m url HI. unfold policy_for.
+  destruct (l_match (plookup pt url)) eqn:HM.
+  - unfold plookup, lookup in *.
+    pose proof (lookup_parts_spec (pt_tree pt) (split_url url) HM) as (HV & _).
+    rewrite HV. pose proof (inv_C _ _ HI (l_key (lookup_parts (pt_tree pt) (split_url url)))) as HC.
+    destruct (node_val (pt_tree pt) (l_key (lookup_parts (pt_tree pt) (split_url url)))) as [id|].
+    + destruct HC as (_ & _ & Hst). apply Hst.
+    + symmetry. apply merged_no_decl. exact HC.
+  - destruct (l_val (plookup pt url)) as [id|] eqn:E; [|reflexivity].
+    apply lookup_val_match in E. congruence.
+Qed.
+
+Lemma in_merged_rem : forall ds X m pol r,
+  merged ds X m = Some pol -> In r (p_rem pol) ->
+  exists d, In d ds /\ dkey d = X /\ d_method d = m /\ In r (d_rem d).
+Proof.
+  intros ds X m pol r HM Hr. rewrite (merged_rem _ _ _ _ HM) in Hr.
+  apply in_flat_map in Hr. destruct Hr as (d & Hd & Hr).
+  apply filter_In in Hd. destruct Hd as [Hd Hat]. unfold at_node in Hat.
+  apply andb_true_iff in Hat. destruct Hat as [H1 H2].
+  apply key_eqb_eq in H1. apply str_eqb_eq in H2. exists d. auto.
+Qed.
+
+Lemma in_merged_diag : forall ds X m pol g,
+  merged ds X m = Some pol -> In g (p_diag pol) ->
+  exists d, In d ds /\ dkey d = X /\ d_method d = m /\ In g (d_diag d).
+Proof.
+  intros ds X m pol g HM Hg. rewrite (merged_diag _ _ _ _ HM) in Hg.
+  apply in_flat_map in Hg. destruct Hg as (d & Hd & Hg).
+  apply filter_In in Hd. destruct Hd as [Hd Hat]. unfold at_node in Hat.
+  apply andb_true_iff in Hat. destruct Hat as [H1 H2].
+  apply key_eqb_eq in H1. apply str_eqb_eq in H2. exists d. auto.
+Qed.
+
+Lemma sound_remedies : forall ds pt m url r,
+  Inv ds pt -> In r (endpoint_remedies pt m url) ->
+  exists d, In d ds /\ d_method d = m /\ In r (d_rem d) /\ r_enabled r = true /\
+            matches (pat d) (split_url url) = true.
+Proof.
+  intros ds pt m url r HI Hr. unfold endpoint_remedies in Hr.
+  rewrite (policy_for_merged ds pt m url HI) in Hr.
+  destruct (l_match (plookup pt url)) eqn:HM; [|contradiction].
+  destruct (merged ds (l_key (plookup pt url)) m) as [pol|] eqn:E; [|contradiction].
+  apply filter_In in Hr. destruct Hr as [Hr Hen].
+  destruct (in_merged_rem _ _ _ _ _ E Hr) as (d & Hd & Hk & Hm & Hin).
+  exists d. repeat split; auto.
+  apply (selected_node ds pt url d HI HM Hd Hk).
+Qed.
+
+Lemma sound_diagnoses : forall ds pt m url g,
+  Inv ds pt -> In g (endpoint_diagnoses pt m url) ->
+  exists d, In d ds /\ d_method d = m /\ In g (d_diag d) /\ g_enabled g = true /\
+            matches (pat d) (split_url url) = true.
+Proof.
+  intros ds pt m url g HI Hg. unfold endpoint_diagnoses in Hg.
+  rewrite (policy_for_merged ds pt m url HI) in Hg.
+  destruct (l_match (plookup pt url)) eqn:HM; [|contradiction].
+  destruct (merged ds (l_key (plookup pt url)) m) as [pol|] eqn:E; [|contradiction].
+  apply filter_In in Hg. destruct Hg as [Hg Hen].
+  destruct (in_merged_diag _ _ _ _ _ E Hg) as (d & Hd & Hk & Hm & Hin).
+  exists d. repeat split; auto.
+  apply (selected_node ds pt url d HI HM Hd Hk).
+Qed.
+
+(* ------------------------------------------------------------------ *)
+(* order independence *)
+
+Lemma perm_filter : forall A (f : A -> bool) l l',
+  Permutation l l' -> Permutation (filter f l) (filter f l').
+Proof.
+  intros A f l l' H. induction H; cbn.
+  - constructor.
+  - destruct (f x); [constructor|]; assumption.
+  - destruct (f x), (f y); try apply Permutation_refl.
+    apply perm_swap.
+  - eapply Permutation_trans; eassumption.
+Qed.
+
+Lemma perm_flat_map : forall A B (f : A -> list B) l l',
+  Permutation l l' -> Permutation (flat_map f l) (flat_map f l').
+Proof.
+  intros A B f l l' H. induction H; cbn.
+  - constructor.
+  - apply Permutation_app_head. assumption.
+  - rewrite !app_assoc. apply Permutation_app_tail. apply Permutation_app_comm.
+  - eapply Permutation_trans; eassumption.
+Qed.
+
+Lemma inv_tree_equiv : forall ds ds' pt pt',
+  Inv ds pt -> Inv ds' pt' -> Permutation ds ds' ->
+  tree_equiv (pt_tree pt) (pt_tree pt').
+Proof.
+  intros ds ds' pt pt' HI HI' HP X. unfold info_equiv.
+  assert (Hin : forall d, In d ds <-> In d ds').
+  { intro d. split; intro H.
+    - eapply Permutation_in; eauto.
+    - eapply Permutation_in; [apply Permutation_sym; exact HP|exact H]. }
+  pose proof (has_value_iff ds pt X HI) as HV.
+  pose proof (has_value_iff ds' pt' X HI') as HV'.
+  unfold node_val in HV, HV'.
+  destruct (find_node X (pt_tree pt)) as [ni|] eqn:F;
+    destruct (find_node X (pt_tree pt')) as [ni'|] eqn:F'.
+  - destruct (inv_A _ _ HI X ni F) as (d & k & ps & Hd & Hv).
+    destruct (inv_B _ _ HI d Hd X k ps Hv) as (n1 & F1 & Hh1 & Hn1).
+    destruct (inv_B _ _ HI' d (proj1 (Hin d) Hd) X k ps Hv) as (n2 & F2 & Hh2 & Hn2).
+    rewrite F in F1. rewrite F' in F2. inversion F1; inversion F2; subst n1 n2.
+    split; [congruence|]. split; [congruence|].
+    rewrite HV, HV'. split; intros H d0 Hd0; apply H; apply Hin; exact Hd0.
+  - destruct (inv_A _ _ HI X ni F) as (d & k & ps & Hd & Hv).
+    destruct (inv_B _ _ HI' d (proj1 (Hin d) Hd) X k ps Hv) as (n2 & F2 & _).
+    rewrite F' in F2. discriminate.
+  - destruct (inv_A _ _ HI' X ni' F') as (d & k & ps & Hd & Hv).
+    destruct (inv_B _ _ HI d (proj2 (Hin d) Hd) X k ps Hv) as (n2 & F2 & _).
+    rewrite F in F2. discriminate.
+  - exact I.
+Qed.
+
+Lemma acc_rem_merged : forall ds X m,
+  acc_rem (merged ds X m) = flat_map d_rem (filter (at_node X m) ds).
+Proof. intros. unfold merged. rewrite fold_merge_rem. reflexivity. Qed.
+
+Lemma acc_diag_merged : forall ds X m,
+  acc_diag (merged ds X m) = flat_map d_diag (filter (at_node X m) ds).
+Proof. intros. unfold merged. rewrite fold_merge_diag. reflexivity. Qed.
+
+Lemma endpoint_remedies_acc : forall pt m url,
+  endpoint_remedies pt m url = filter r_enabled (acc_rem (policy_for pt m url)).
+Proof.
+  intros. unfold endpoint_remedies. destruct (policy_for pt m url); reflexivity.
+Qed.
+
+Lemma endpoint_diagnoses_acc : forall pt m url,
+  endpoint_diagnoses pt m url = filter g_enabled (acc_diag (policy_for pt m url)).
+Proof.
+  intros. unfold endpoint_diagnoses. destruct (policy_for pt m url); reflexivity.
+Qed.
+
+Lemma order_independent_core : forall ds ds' pt pt' m url,
+  Inv ds pt -> Inv ds' pt' -> Permutation ds ds' ->
+  same_hit (plookup pt url) (plookup pt' url) /\
+  Permutation (endpoint_remedies pt m url) (endpoint_remedies pt' m url) /\
+  Permutation (endpoint_diagnoses pt m url) (endpoint_diagnoses pt' m url).
+Proof.
+  intros ds ds' pt pt' m url HI HI' HP.
+  pose proof (inv_tree_equiv _ _ _ _ HI HI' HP) as HE.
+  assert (HS : same_hit (plookup pt url) (plookup pt' url)).
+  { unfold plookup, lookup, lookup_parts. apply walk_equiv. exact HE. }
+  split; [exact HS|].
+  destruct HS as (HM & HK & _ & _).
+  rewrite !endpoint_remedies_acc, !endpoint_diagnoses_acc.
+  rewrite (policy_for_merged ds pt m url HI), (policy_for_merged ds' pt' m url HI').
+  rewrite <- HM, <- HK.
+  destruct (l_match (plookup pt url)).
+  - rewrite !acc_rem_merged, !acc_diag_merged. split.
+    + apply perm_filter. apply perm_flat_map. apply perm_filter. exact HP.
+    + apply perm_filter. apply perm_flat_map. apply perm_filter. exact HP.
+  - split; constructor.
+Qed.
+
+(* ------------------------------------------------------------------ *)
+(* specificity *)
+
+Lemma nth_error_mid : forall A (l1 : list A) x l2 n,
+  length l1 = n -> nth_error (l1 ++ x :: l2) n = Some x.
+Proof.
+  intros A l1 x l2 n H. subst n. rewrite nth_error_app2 by lia.
+  rewrite Nat.sub_diag. reflexivity.
+Qed.
+
+(* literal over parameter: where the selected pattern has a parameter, no
+   declared pattern with the same earlier steps offers the literal request
+   part (of that kind) *)
+Lemma literal_over_parameter : forall ds pt url A X' k u,
+  Inv ds pt -> l_match (plookup pt url) = true ->
+  l_key (plookup pt url) = A ++ KParam :: X' ->
+  nth_error (split_url url) (length X') = Some (k, u) ->
+  forall d' ps, In d' ds -> ~ visited d' (KConst u :: X') k ps.
+Proof.
+  intros ds pt url A X' k u HI HM HK Hnth d' ps Hd' Hv.
+  unfold plookup, lookup in *. set (parts := split_url url) in *.
+  set (t := pt_tree pt) in *.
+  pose proof (lookup_parts_spec t parts HM) as (_ & _ & HR).
+  assert (Hcore : exists k1 u1 rus' rest,
+             parts = rev rus' ++ (k1, u1) :: rest /\ length rus' = length X' /\
+             child_ok t (KConst u1 :: X') k1 = None).
+  { destruct HR as [(HF & _)|(P & rP & pre & HW & HF & Hrall & _)].
+    - rewrite HK in HF. apply follows_param_step in HF.
+      destruct HF as (B & k1 & u1 & rus' & Hr & _ & HC & HF).
+      exists k1, u1, rus', (rev B). split; [|split; [|exact HC]].
+      + rewrite <- (rev_involutive parts), Hr, rev_app_distr. cbn [rev].
+        rewrite <- app_assoc. reflexivity.
+      + symmetry. eapply follows_length. exact HF.
+    - rewrite HK in HW. destruct A as [|a A']; [discriminate|].
+      cbn [app] in HW. injection HW as _ HP. subst P.
+      apply follows_param_step in HF.
+      destruct HF as (B & k1 & u1 & rus' & Hr & _ & HC & HF).
+      exists k1, u1, rus', (rev B ++ rev pre). split; [|split; [|exact HC]].
+      + rewrite <- (rev_involutive parts), Hrall, rev_app_distr, Hr, rev_app_distr.
+        cbn [rev]. rewrite <- !app_assoc. reflexivity.
+      + symmetry. eapply follows_length. exact HF. }
+  destruct Hcore as (k1 & u1 & rus' & rest & Hparts & HL & HC).
+  rewrite Hparts in Hnth. rewrite nth_error_mid in Hnth by (rewrite rev_length; exact HL).
+  inversion Hnth; subst k1 u1.
+  destruct (inv_B _ _ HI d' Hd' _ _ _ Hv) as (ni & F & Hh & _). fold t in F.
+  rewrite (child_ok_intro _ _ _ _ F Hh) in HC. discriminate.
+Qed.
+
+Lemma wild_freeb_spec : forall p, wild_freeb p = true -> wild_free p.
+Proof.
+  intros p H. unfold wild_freeb in H. rewrite forallb_forall in H.
+  apply Forall_forall. intros x Hx Hw. specialize (H x Hx). rewrite Hw in H.
+  discriminate.
+Qed.
+
+Lemma unshadowedb_spec : forall ds pt p K us,
+  Inv ds pt -> unshadowedb ds K p us = true ->
+  unshadowed_in (pt_tree pt) K p us.
+Proof.
+  intros ds pt. induction p as [|[k ps] p' IH]; intros K us HI HU; [exact I|].
+  destruct us as [|[ku u] us']; [exact I|]. cbn [unshadowedb unshadowed_in] in *.
+  apply andb_true_iff in HU. destruct HU as [HU0 HU]. split; [|apply IH; auto].
+  destruct ps as [c|nm|]; try exact I.
+  destruct (child_ok (pt_tree pt) (KConst u :: K) ku) as [ci|] eqn:HC; [|reflexivity].
+  exfalso. apply child_ok_some in HC. destruct HC as [F Hh].
+  destruct (inv_A _ _ HI _ _ F) as (d' & k' & ps' & Hd' & Hv).
+  destruct (inv_B _ _ HI d' Hd' _ _ _ Hv) as (ni & F' & Hh' & _).
+  rewrite F in F'. inversion F'; subst ni.
+  apply negb_true_iff in HU0. unfold reaches in HU0.
+  assert (HE : existsb (fun d => match step_at [] (pat d) (KConst u :: K) with
+                                 | Some (k'0, _) => eqb k'0 ku
+                                 | None => false
+                                 end) ds = true).
+  { apply existsb_exists. exists d'. split; [exact Hd'|].
+    unfold visited in Hv. rewrite Hv. apply eqb_true_iff. congruence. }
+  congruence.
+Qed.
+
+(* an exact (wildcard-free) declared pattern that matches the request and is
+   not shadowed is the one selected *)
+Lemma exact_wins : forall ds pt url d,
+  Inv ds pt -> In d ds -> wild_freeb (pat d) = true ->
+  matches (pat d) (split_url url) = true ->
+  unshadowedb ds [] (pat d) (split_url url) = true ->
+  l_match (plookup pt url) = true /\ l_key (plookup pt url) = dkey d.
+Proof.
+  intros ds pt url d HI Hd HW HM HU. unfold plookup, lookup, lookup_parts, dkey, key_of.
+  apply walk_exact; auto.
+  - apply (inv_B _ _ HI d Hd).
+  - apply wild_freeb_spec. exact HW.
+  - eapply unshadowedb_spec; eauto.
+  - intro HN.
+    pose proof (proj1 (has_value_iff ds pt (key_from [] (pat d)) HI) HN) as HN'.
+    apply (HN' d Hd). reflexivity.
+Qed.
+
+(* ------------------------------------------------------------------ *)
+(* packaging for Property.v *)
+
+Lemma selected_declared : forall ds pt url id,
+  Inv ds pt -> l_val (plookup pt url) = Some id ->
+  exists d, In d ds /\ dkey d = l_key (plookup pt url) /\
+    matches (pat d) (split_url url) = true /\
+    l_norm (plookup pt url) = render_pattern (pat d) /\
+    (Forall (fun u => is_brace (snd u) = false) (split_url url) ->
+     l_params (plookup pt url) = params_at (pat d) (split_url url) []).
+Proof.
+  intros ds pt url id HI HV.
+  pose proof (lookup_val_match _ _ _ HV) as HM.
+  assert (HN : node_val (pt_tree pt) (l_key (plookup pt url)) = Some id).
+  { unfold plookup, lookup in *.
+    pose proof (lookup_parts_spec (pt_tree pt) (split_url url) HM) as (HV' & _).
+    congruence. }
+  pose proof (inv_C _ _ HI (l_key (plookup pt url))) as HC. rewrite HN in HC.
+  destruct HC as ((d & Hd & Hk) & _).
+  exists d. split; [exact Hd|]. split; [exact Hk|].
+  apply (selected_node ds pt url d HI HM Hd Hk).
+Qed.
+
+Lemma exact_wins_val : forall ds pt url d,
+  Inv ds pt -> In d ds -> wild_freeb (pat d) = true ->
+  matches (pat d) (split_url url) = true ->
+  unshadowedb ds [] (pat d) (split_url url) = true ->
+  l_key (plookup pt url) = dkey d /\ l_val (plookup pt url) <> None.
+Proof.
+  intros ds pt url d HI Hd HW HM HU.
+  destruct (exact_wins ds pt url d HI Hd HW HM HU) as [HMt HK].
+  split; [exact HK|].
+  unfold plookup, lookup in *.
+  pose proof (lookup_parts_spec (pt_tree pt) (split_url url) HMt) as (HV & _).
+  rewrite HV, HK. intro HN.
+  pose proof (proj1 (has_value_iff ds pt (dkey d) HI) HN) as HN'.
+  apply (HN' d Hd). reflexivity.
+Qed.
+
+Lemma perm_is_nil : forall A (l l' : list A), Permutation l l' -> is_nil l = is_nil l'.
+Proof.
+  intros A l l' H. apply Permutation_length in H.
+  destruct l, l'; cbn in *; try reflexivity; discriminate.
+Qed.
+
+(* at most one declaration per (node, method): then nothing is merged and the
+   selection is literally the same list in every order *)
+Fixpoint distinct_endpointsb (ds : list decl) : bool :=
+  match ds with
+  | [] => true
+  | d :: ds' =>
+      negb (existsb (at_node (dkey d) (d_method d)) ds') && distinct_endpointsb ds'
+  end.
+
+Lemma distinct_filter_short : forall ds X m,
+  distinct_endpointsb ds = true -> (length (filter (at_node X m) ds) <= 1)%nat.
+Proof.
+  induction ds as [|d ds IH]; intros X m H; cbn in *; [lia|].
+  apply andb_true_iff in H. destruct H as [H1 H2].
+  destruct (at_node X m d) eqn:E; [|apply IH; exact H2].
+  cbn. replace (filter (at_node X m) ds) with (@nil decl); [cbn; lia|].
+  symmetry. apply negb_true_iff in H1.
+  unfold at_node in E. apply andb_true_iff in E. destruct E as [E1 E2].
+  apply key_eqb_eq in E1. apply str_eqb_eq in E2. subst X m.
+  clear IH H2. induction ds as [|d' ds IH]; [reflexivity|]. cbn in *.
+  apply orb_false_iff in H1. destruct H1 as [H1 H1']. rewrite H1. apply IH. exact H1'.
+Qed.
+
+Lemma perm_short_eq : forall A (l l' : list A),
+  Permutation l l' -> (length l <= 1)%nat -> l = l'.
+Proof.
+  intros A l l' HP HL. destruct l as [|x [|y l]]; cbn in HL; try lia.
+  - apply Permutation_nil in HP. congruence.
+  - apply Permutation_length_1_inv in HP. congruence.
+Qed.
+
+Lemma order_independent_exact : forall ds ds' pt pt' m url,
+  Inv ds pt -> Inv ds' pt' -> Permutation ds ds' -> distinct_endpointsb ds = true ->
+  endpoint_remedies pt m url = endpoint_remedies pt' m url /\
+  endpoint_diagnoses pt m url = endpoint_diagnoses pt' m url.
+Proof.
+  intros ds ds' pt pt' m url HI HI' HP HD.
+  pose proof (order_independent_core ds ds' pt pt' m url HI HI' HP) as (HS & _ & _).
+  destruct HS as (HM & HK & _ & _).
+  rewrite !endpoint_remedies_acc, !endpoint_diagnoses_acc.
+  rewrite (policy_for_merged ds pt m url HI), (policy_for_merged ds' pt' m url HI').
+  rewrite <- HM, <- HK.
+  destruct (l_match (plookup pt url)); [|split; reflexivity].
+  rewrite !acc_rem_merged, !acc_diag_merged.
+  set (X := l_key (plookup pt url)).
+  assert (HF : filter (at_node X m) ds = filter (at_node X m) ds').
+  { apply perm_short_eq; [apply perm_filter; exact HP|].
+    apply distinct_filter_short. exact HD. }
+  rewrite HF. split; reflexivity.
+Qed.
